@@ -10,9 +10,17 @@ def main():
     results, paths = games.walk_traces(chk, events=700 if q else 20000, files=8 if q else 32)
     n_events, distinct = games.collect_walk(chk, results, paths)
     # --- direction B: enumerated families replayed into the generator
-    fams = ["ep", "castle", "pin", "dblchk", "promo", "kingwalk", "evade"]
-    outs, jobs = games.run_movegen_families(chk, fams, nshards=16, density=16 if q else 1,
-                                            shards=[chk.seed % 16, (chk.seed + 5) % 16] if q else None)
+    fams = ["ep", "castle", "pin", "dblchk", "promo", "promopin", "kingwalk", "evade"]
+    if q:
+        # quick: the line-through-the-king cases of ep / pin completely (all shards, thinning keeps them), the small
+        # targeted families completely, the large cross products thinned
+        outs, jobs = games.run_movegen_families(chk, ["ep", "pin"], nshards=16, density=16)
+        o2, j2 = games.run_movegen_families(chk, ["castle", "promopin"], nshards=8, density=1)
+        o3, j3 = games.run_movegen_families(chk, ["dblchk", "promo", "kingwalk", "evade"], nshards=16, density=16,
+                                            shards=[chk.seed % 16, (chk.seed + 5) % 16])
+        outs, jobs = outs + o2 + o3, jobs + j2 + j3
+    else:
+        outs, jobs = games.run_movegen_families(chk, fams, nshards=16, density=1)
     n_gen = n_dist = n_nontriv = 0
     fam_counts = {}
     for (o, p), (fam, sh) in zip(outs, jobs):
